@@ -200,6 +200,37 @@ def check_B(cell):
         r3 = run_spellings([("mg.%s(a, b, dtype=float32)" % b, sp(lambda x, y: mgf(x, y, dtype="float32"))), ("np.%s(a, b, dtype=float32)" % b, sp(lambda x, y: npf(x, y, dtype="float32")))])
         if r3 is not None:
             return r3
+        # dtype= together with out= (float64 targets, float32 loop; operand values that do not survive float32)
+        def mk32():
+            ops, tens = [], []
+            for v, k in zip((A, Bv), kinds):
+                v = v + np.float64(0.1) * (1 if np.all(v + 0.1 != 0) else 0)
+                if k == "t":
+                    t = mg.tensor(v)
+                    ops.append(t)
+                    tens.append(t)
+                elif k == "a":
+                    ops.append(v.copy())
+                else:
+                    ops.append(float(v))
+            return ops, tens
+
+        def sp32(f):
+            def thunk():
+                ops, tens = mk32()
+                return summarize(f(*ops), tens, g)
+            return thunk
+
+        def o32_t(fn):
+            def inner(x, y):
+                t = mg.tensor(np.zeros(oshape))
+                return fn(x, y, out=t, dtype=np.float32)
+            return inner
+
+        r4 = run_spellings([("mg.%s(a, b, out=Tensor, dtype=float32)" % b, sp32(o32_t(mgf))), ("np.%s(a, b, out=Tensor, dtype=float32)" % b, sp32(o32_t(npf))),
+                            ("mg.%s(a, b, out=ndarray, dtype=float32)" % b, sp32(lambda x, y: mgf(x, y, out=np.zeros(oshape), dtype=np.float32)))])
+        if r4 is not None:
+            return r4
         if b in IOP and kinds[0] == "t" and oshape == tuple(sa):
             def aug(x, y):
                 c = +x
